@@ -214,6 +214,21 @@ def r3_r4(ctx: Context, sites) -> None:
         regs = [c for c in calls_in(f.node) if call_name(c) == "append" and self_attr(c.func) == "invocation_threads"]
         starts = [c for c in calls_in(f.node) if call_name(c) == "start" and isinstance(c.func.value, ast.Name) and c.func.value.id in tnames]
         ok = len(regs) == 1 and isinstance(regs[0].func.value, ast.Subscript) and ast.unparse(regs[0].func.value.slice) == idtxt and len(regs[0].args) == 1 and isinstance(regs[0].args[0], ast.Name) and regs[0].args[0].id in tnames
+        if not regs:
+            # the registration may live in a helper handed (the entry's id, the thread): it must append its thread parameter
+            # under its id parameter, in place
+            for hc in calls_in(f.node):
+                if not (isinstance(hc.func, ast.Attribute) and isinstance(hc.func.value, ast.Name) and hc.func.value.id == "self" and f.cls is not None):
+                    continue
+                h = f.cls.find_method(hc.func.attr)
+                if h is None or len(hc.args) != 2 or len(h.params) != 3:
+                    continue
+                if ast.unparse(hc.args[0]) != idtxt or not (isinstance(hc.args[1], ast.Name) and hc.args[1].id in tnames):
+                    continue
+                happ = [c for c in calls_in(h.node) if call_name(c) == "append" and self_attr(c.func) == "invocation_threads"]
+                ok = len(happ) == 1 and isinstance(happ[0].func.value, ast.Subscript) and ast.unparse(happ[0].func.value.slice) == h.params[1] and len(happ[0].args) == 1 and isinstance(happ[0].args[0], ast.Name) and happ[0].args[0].id == h.params[2]
+                regs = [hc]
+                break
         ctx.add("R4", f"{f.qualname}::thread-registered-under-id", ok, f.loc(), "" if ok else "the writer thread is not appended to invocation_threads[<the entry's invocation id>]")
         ok2 = len(starts) == 1
         ctx.add("R4", f"{f.qualname}::thread-started-once", ok2, f.loc(), "" if ok2 else f"{len(starts)} start() calls")
@@ -225,6 +240,16 @@ def r3_r4(ctx: Context, sites) -> None:
             sn = cfg_node_of(g, f.node, starts[0], pm)
             okd = all(any(r.id in dom.get(s.id, set()) for r in rn) for s in sn)
             ctx.add("R4", f"{f.qualname}::registered-before-start", okd, f.loc(starts[0]), "" if okd else "start() is not dominated by the registration: a flush between start and registration misses the thread")
+    # the registry is shared by every thread that records history: an entry list is only ever extended in place
+    from ..flow import read_copy_write_sites
+
+    n_rcw = 0
+    for m in sb.methods.values():
+        n_rcw += 1
+        for node, attr, src in read_copy_write_sites(m.node):
+            if attr == "invocation_threads":
+                ctx.fail("R4", f"{m.qualname}::registry-extended-in-place", m.loc(node), f"`{ast.unparse(node)[:70]}` replaces the list of writer threads by one computed from a copy: a thread registered concurrently for the same invocation (another runner's status change) is dropped and the flush returns before its entry is stored")
+    ctx.ok("R4", "BaseStateBackend::registry-extended-in-place::methods-scanned", sb.module.relpath, f"{n_rcw} methods")
     # flush
     w_all = sb.methods.get("wait_for_all_async_operations")
     w_one = sb.methods.get("wait_for_invocation_async_operations")
